@@ -350,8 +350,11 @@ def run(model, tier):
         'field is interp(x, A + c*t, F) with the requested points as query, F and A independent of t, and the '
         "normal form of c equal to M0*sqrt(gamma*(gamma-1)*Cv*Tref) over the INSTANCE's parameter atoms: the "
         'returned solution is the stored steady profile displaced by Mach number x upstream sound speed x t and '
-        'nothing else changes with time. Flux constancy along the profile and the downstream equilibrium are '
-        'numerics inside utils.py and are not decided, except for one structural necessary condition, R12.3: the 44 '
+        'nothing else changes with time. R12.5: along the whole profile of the equilibrium-diffusion solver (every stored quantity a '
+        'closed form of the temperature) and of the non-equilibrium-diffusion solver (closed forms of radiation pressure and Mach '
+        'number), mass, total momentum and total energy flux are constant as identities in the integration variables, all '
+        'parameters and opacity exponents (sa/rules/c12_ed.py). The downstream equilibrium, the integrations and the FLD / Sn '
+        'solvers are numerics inside utils.py and are not decided. R12.3: the 44 '
         'copies of the absorption / scattering cross-section formula in the profile helper functions all use exactly the '
         'parameters of their own process and have one common form (sibling agreement); and R12.4: the reference sound speed and the dimensionless groups C0, P0 (Mc) '
         'computed by the RadShock / IEShock constructors have the dimensions their doc comments state (dimension inference with c, a_r '
@@ -364,4 +367,9 @@ def run(model, tier):
     sibling_opacities(model, res)
     scaling_groups(model, res)
     stale_flow(model, res)
+    # R12.5: flux constancy along the whole profile, as identities in the integration variables
+    from . import c12_ed
+    from ..par import run_parallel
+    run_parallel([(lambda part: c12_ed.ed_fluxes(model, part), ()), (lambda part: c12_ed.ned_fluxes(model, part, ('nED',)), ()),
+                  (lambda part: c12_ed.ned_fluxes(model, part, ('LM_nED',)), ())], res)
     return res
